@@ -5,8 +5,9 @@
 // (key order kept) and the error list (message class, path, locations) in order.
 // Model side: lean/ApiFu/C01 (driver c01model) on the parsed AST + schema description + world.
 // Model-free oracle: Ref (ref.go), an independent implementation of the June-2018 algorithm:
-//   data equal; requiredErrors ⊆ errors ⊆ allErrors as multisets keyed by (path, locations);
-//   every required error (one per failure-null visible in data) reported exactly once.
+//
+//	data equal; requiredErrors ⊆ errors ⊆ allErrors as multisets keyed by (path, locations);
+//	every required error (one per failure-null visible in data) reported exactly once.
 package main
 
 import (
@@ -136,6 +137,10 @@ func (h *harness) evaluate(c *Case) *Eval {
 	}
 	docSexp, stats := gqlgen.DocSexp(b, doc, vars)
 	ev.Stats = stats
+	if stats.DirErrs > 0 {
+		ev.Status = "uncoercible-directive"
+		return ev
+	}
 
 	// real
 	func() {
@@ -297,7 +302,9 @@ func findingKey(ev *Eval) string {
 	return ""
 }
 
-func nontrivial(ev *Eval) bool { return ev.Status == "ok" && !ev.Ref.RequestError && ev.Ref.Crossed > 0 }
+func nontrivial(ev *Eval) bool {
+	return ev.Status == "ok" && !ev.Ref.RequestError && ev.Ref.Crossed > 0
+}
 
 func (h *harness) record(c *Case, ev *Eval, family string) {
 	run := h.run
@@ -458,9 +465,12 @@ func main() {
 	h.selfTest()
 	h.exhaustive()
 
+	// hx.NewRand(k+1) is hx.NewRand(k) advanced by one draw; fork once so that different seeds give
+	// unrelated case streams
+	root := run.Rand.Fork()
 	n := run.Scale(30000, 600000)
 	for i := 0; i < n; i++ {
-		r := run.Rand.Fork()
+		r := root.Fork()
 		c := randomCase(r)
 		if c == nil {
 			run.Count("status:no-operation-generated")
